@@ -876,6 +876,39 @@ package badger
 //@   assert[copy-of-read] before call copy : arg1 == ret0(yieldItemValue#1) && len(arg0) == len(ret0(yieldItemValue#1))
 //@   assert[room-for-all] before call Resize : arg1 == len(ret0(yieldItemValue#1))
 
+// ---- the key registry (C23) ----
+
+//@ func newKeyRegistry
+//@   props C23
+//@   ensures[empty] result != nil && fresh(result) && result.dataKeys != nil && result.nextKeyID == 0 && (forall id uint64 :: !(id in result.dataKeys))
+//@   assigns nothing
+
+// Reading the registry: every data key read is registered under its own id, and the id for
+// the next generated key stays at or above every registered id, in whatever order the keys
+// were stored (a new data key must never reuse the id of an existing one).
+//@ func readKeyRegistry
+//@   props C23
+//@   light
+//@   assert[read-with-given-key] before call newKeyRegistryIterator : arg0 == fp && arg1 == opt.EncryptionKey
+//@   loop 1 invariant[next-id-above-all] kr != nil && kr.dataKeys != nil && (forall id uint64 :: id in kr.dataKeys ==> id <= kr.nextKeyID)
+
+// Rewriting the registry (master-key rotation): the sanity text and every data key are stored
+// under the key given for the rewrite, and the new file replaces the old one only after it was
+// written and closed without error.
+//@ func WriteKeyRegistry
+//@   props C23
+//@   light
+//@   assert[sanity-under-given-key] before call XORBlockAllocate : arg1 == opt.EncryptionKey && arg2 == ret0(GenerateIV#1)
+//@   assert[data-keys-under-given-key] before call storeDataKey : arg0 == buf && arg1 == opt.EncryptionKey
+//@   assert[written-and-closed-before-rename] before call Rename : called(Write#3) && ret1(Write#3) == nil && called(Close#2) && ret(Close#2) == nil
+
+// A newly generated data key gets an id one above the largest so far, is stored on disk under
+// the master key (unless in memory) and registered under its own id.
+//@ func (*KeyRegistry).LatestDataKey
+//@   props C23
+//@   light
+//@   assert[stored-under-master-key] before call storeDataKey : arg1 == kr.opt.EncryptionKey && arg2 == dk && dk.KeyId == kr.nextKeyID
+
 // ---- reading log records back (C16) ----
 
 // safeRead.Entry: header, key and value pass through the hashing reader, the stored checksum
